@@ -303,9 +303,12 @@ func (rm *RequestManager) processResponses(p peer.ID,
 		attribute.Int("blockCount", len(blks)),
 	))
 	defer span.End()
-	// only responses from the peer a request was sent to may reach hooks or affect the request
-	filteredResponses := rm.filterResponsesForPeer(responses, p)
+	// a response for an in-progress request may only reach hooks or affect the request if it comes
+	// from the peer that request was sent to (responses for requests that are no longer in progress
+	// still reach the response hooks, e.g. a final status arriving after the traversal finished)
+	filteredResponses := rm.dropResponsesFromOtherPeers(responses, p)
 	filteredResponses = rm.processExtensions(filteredResponses, p)
+	filteredResponses = rm.filterResponsesForPeer(filteredResponses, p)
 	blkMap := make(map[cid.Cid][]byte, len(blks))
 	for _, blk := range blks {
 		blkMap[blk.Cid()] = blk.RawData()
@@ -331,6 +334,18 @@ func (rm *RequestManager) filterResponsesForPeer(responses []gsmsg.GraphSyncResp
 		responsesForPeer = append(responsesForPeer, response)
 	}
 	return responsesForPeer
+}
+
+func (rm *RequestManager) dropResponsesFromOtherPeers(responses []gsmsg.GraphSyncResponse, p peer.ID) []gsmsg.GraphSyncResponse {
+	remainingResponses := make([]gsmsg.GraphSyncResponse, 0, len(responses))
+	for _, response := range responses {
+		requestStatus, ok := rm.inProgressRequestStatuses[response.RequestID()]
+		if ok && requestStatus.p != p {
+			continue
+		}
+		remainingResponses = append(remainingResponses, response)
+	}
+	return remainingResponses
 }
 
 func (rm *RequestManager) processExtensions(responses []gsmsg.GraphSyncResponse, p peer.ID) []gsmsg.GraphSyncResponse {
